@@ -144,13 +144,41 @@ fn parse_request(line: &str) -> Result<Request, (String, String)> {
     Ok(Request { id, grammar, opts })
 }
 
+/// the grammar text pest sees: the parts concatenated, file markers removed
+fn plain_grammar(g: &str) -> String {
+    g.split('\u{1e}')
+        .map(|part| match part.strip_prefix('\u{1f}') {
+            Some(rest) => rest.split_once(':').map(|(_, t)| t).unwrap_or(rest).to_string(),
+            None => part.to_string(),
+        })
+        .collect::<Vec<_>>()
+        .join("")
+}
+
 /// `#[grammar_inline = "..."] #[opt = true] ... struct P;`
 fn derive_input(req: &Request) -> TokenStream {
     // several grammar sources: the request text is split at U+001E, one `grammar_inline` attribute per part
     // (the generator concatenates its sources before handing them to pest_meta)
     let mut ts = TokenStream::new();
-    for part in req.grammar.split('\u{1e}') {
-        ts.extend(quote! { #[grammar_inline = #part] });
+    for (i, part) in req.grammar.split('\u{1e}').enumerate() {
+        // a part that starts with U+001F "src:" / "root:" is handed over as a FILE: `#[grammar = "PATH"]`, PATH relative to
+        // CARGO_MANIFEST_DIR/src (the old default location) resp. to CARGO_MANIFEST_DIR itself
+        if let Some(rest) = part.strip_prefix('\u{1f}') {
+            let (mode, text) = rest.split_once(':').unwrap_or(("src", rest));
+            let root = std::env::temp_dir().join(format!("gen_dump_{}", std::process::id()));
+            let name = format!("g{}_{}.pest", req.id, i);
+            let (dir, attr) = if mode == "root" {
+                (root.join("grammars"), format!("grammars/{}", name))
+            } else {
+                (root.join("src"), name.clone())
+            };
+            std::fs::create_dir_all(&dir).expect("scratch directory for file grammars");
+            std::fs::write(dir.join(&name), text).expect("write file grammar");
+            std::env::set_var("CARGO_MANIFEST_DIR", &root);
+            ts.extend(quote! { #[grammar = #attr] });
+        } else {
+            ts.extend(quote! { #[grammar_inline = #part] });
+        }
     }
     for (k, v) in &req.opts {
         let id = format_ident!("{}", k);
@@ -1204,7 +1232,7 @@ fn extract(ts: TokenStream) -> Result<(String, String, String, String), String> 
 
 fn process(req: &Request) -> String {
     // 1, 3, 4: pest_meta
-    let (meta, asts): (String, Option<String>) = match guarded(|| meta_check(&req.grammar.replace('\u{1e}', ""))) {
+    let (meta, asts): (String, Option<String>) = match guarded(|| meta_check(&plain_grammar(&req.grammar))) {
         Ok((verdict, ast)) => {
             let (mut meta, mut opt_panic) = (
                 match verdict {
@@ -1307,4 +1335,5 @@ fn main() {
         .spawn(serve)
         .expect("cannot spawn the worker thread");
     let _ = t.join();
+    let _ = std::fs::remove_dir_all(std::env::temp_dir().join(format!("gen_dump_{}", std::process::id())));
 }
